@@ -56,7 +56,7 @@ theorem jit_epilogue_sim (env : Env) (haddr : Nat → Option Nat) (um : Bool) (c
       σ'.get 3 = σ0.get 3 ∧ σ'.get 5 = σ0.get 5 ∧ σ'.get 13 = σ0.get 13 ∧ σ'.get 14 = σ0.get 14 ∧ σ'.get 15 = σ0.get 15 ∧
       (σ'.get X86.RSP).toNat = s'.mem.stack.base + 560 := by
   obtain ⟨k, σ', h1, h2, h3, h4, h5, h6, h7, h8, -⟩ :=
-    entry_epilogue_sim env haddr um c L σ0 σ s' retAddr top r0 hv hsize hpad htop hrip hrax hmem hrsp htb
+    entry_epilogue_sim env haddr um false c L σ0 σ s' retAddr top r0 hv hsize hpad htop hrip hrax hmem hrsp htb
   exact ⟨k, σ', h1, h2, h3, h4, h5, h6, h7, h8⟩
 
 /-- **From call to return.**  For a program all of whose instructions are covered (no calls), a code buffer that
